@@ -1105,6 +1105,10 @@ class Data(BaseCartesianData):
         is_present = component_id in self._components
         self._components[component_id] = component
 
+        # If an existing component was replaced, no cached mask can be trusted
+        if is_present:
+            _clear_subset_state_caches()
+
         if self.hub and not is_present:
             msg = DataAddComponentMessage(self, component_id)
             self.hub.broadcast(msg)
